@@ -1,6 +1,7 @@
 """C09(b): the real simplify_* functions on symbolic literal values (SymInt), decided by z3 for ALL values of the operands'
 types.  Returns report items; called from c09.run."""
 import itertools
+import os
 import z3
 from .. import corpus
 from ..shim import symint
@@ -49,11 +50,20 @@ def _val(num, w):
     return z3.Extract(w - 1, 0, e)
 
 
+XN = [0]
+XS = {}  # cvc5 verdicts on the queries z3 answered unsat (per worker process)
+
+
 def _solve(cons):
     s = z3.Solver()
     s.set("timeout", 60000)
     s.add(*cons)
     r = str(s.check())
+    XN[0] += 1
+    if r == "unsat" and (os.environ.get("VERIF_TIER") == "thorough" or XN[0] % 6 == 0):  # second solver, same assertions
+        from .. import tv
+        x = tv.cvc5_decide(s.to_smt2(), 10000)
+        XS[x.split(":")[0]] = XS.get(x.split(":")[0], 0) + 1
     return r, (s.model() if r == "sat" else None)
 
 
@@ -190,4 +200,8 @@ def run_all(rep):
             rep.add(key, "inconclusive", "solver", detail)
         else:
             rep.add(key, "ok", st, detail)
+    for k, v in sorted(XS.items()):
+        rep.count_query("cvc5:" + k, v)
+    if XS.get("sat"):
+        rep.harness_error(f"SymInt shim: z3 answers unsat, cvc5 answers sat on {XS['sat']} of the same assertion sets")
     return n
